@@ -40,9 +40,12 @@ theorem bw_avoid (hE : EClass E) (hcv : ¬ E .constraintViolation) :
       have hc : Avoid E (validateCons cons σ.look) :=
         avoid_validateCons hS (Or.inr hcv) (fun x hx => hG.look x (by simp [parameterNames, hx]))
       have hm : Avoid E (mapValues pm σ) := avoid_mapValues hS hG (fun x hx => by simp [parameterNames, hx])
-      refine avoid_bind (avoid_bind hc (fun _ _ => hm)) (fun σ' hσ' => ?_)
+      have hp : Avoid E (presence (kvVars pm ++ consVars cons) σ) :=
+        avoid_presence (fun hE x hx => hG.keys hE x (by simpa [parameterNames] using hx))
+      refine avoid_bind (avoid_bind hp (fun _ _ => avoid_bind hc (fun _ _ => hm))) (fun σ' hσ' => ?_)
       have hσ'' : mapValues pm σ = .ok σ' := by
         obtain ⟨u, _, h⟩ := bind_ok.mp hσ'
+        obtain ⟨u', _, h⟩ := bind_ok.mp h
         exact h
       refine avoid_bind (clean_avoid hS (updatedCm_clean _ _)) (fun cmU _ => ?_)
       exact bw_avoid hE hcv body σ' cmU hW.2 hT (good_mapValues hσ'' hW.1)
@@ -141,9 +144,12 @@ theorem am_avoid (hE : EClass E) (hcv : ¬ E .constraintViolation) :
       have hc : Avoid E (validateCons cons σ.look) :=
         avoid_validateCons hS (Or.inr hcv) (fun x hx => hG.look x (by simp [parameterNames, hx]))
       have hm : Avoid E (mapValues pm σ) := avoid_mapValues hS hG (fun x hx => by simp [parameterNames, hx])
-      refine avoid_bind (avoid_bind hc (fun _ _ => hm)) (fun σ' hσ' => ?_)
+      have hp : Avoid E (presence (kvVars pm ++ consVars cons) σ) :=
+        avoid_presence (fun hE x hx => hG.keys hE x (by simpa [parameterNames] using hx))
+      refine avoid_bind (avoid_bind hp (fun _ _ => avoid_bind hc (fun _ _ => hm))) (fun σ' hσ' => ?_)
       have hσ'' : mapValues pm σ = .ok σ' := by
         obtain ⟨u, _, h⟩ := bind_ok.mp hσ'
+        obtain ⟨u', _, h⟩ := bind_ok.mp h
         exact h
       refine avoid_bind (clean_avoid hS (updatedMm_clean _ _)) (fun mmU _ => ?_)
       exact am_avoid hE hcv body σ' mmU hW.2 hT (good_mapValues hσ'' hW.1)
@@ -197,7 +203,11 @@ theorem mapParameterValues_congr {N : List String} {σ σ' : Scope} (hR : Rel N 
     {cons : List Expr} (hp : ∀ x ∈ kvVars pm, x ∈ N) (hc : ∀ x ∈ consVars cons, x ∈ N) :
     mapParameterValues pm cons σ = mapParameterValues pm cons σ' := by
   rw [mapParameterValues_eq, mapParameterValues_eq, validateCons_congr (fun x hx => hR.look x (hc x hx)),
-    mapValues_congr hR hp]
+    mapValues_congr hR hp,
+    presence_congr (fun x hx => hR.keys x (by
+      rcases List.mem_append.mp hx with h | h
+      · exact hp x h
+      · exact hc x h))]
 
 mutual
 theorem bw_congr : ∀ (pt : PT) (σ σ' : Scope) (cm : List (Chan × Option Chan)), WF pt → NoReservedT pt →
